@@ -338,9 +338,12 @@ Definition conv_rules (ingress : bool) (ns : bytes) (rs : list nprule) : list cr
 Definition has_type (t : ptype) (ts : list ptype) : bool :=
   existsb (fun x => match x, t with TIngress, TIngress | TEgress, TEgress => true | _, _ => false end) ts.
 
-Definition conv_types (ts : list ptype) : list ptype :=
+(* `infer` selects the variant of the code: false = the pinned tree (no recognised policyTypes -> [ingress]);
+   true = with fixes/C29-infer-egress-policy-type.patch (-> [ingress] plus [egress] when spec.egress is not empty,
+   the Kubernetes API server's defaulting).  The driver probes the tree and records which variant it runs. *)
+Definition conv_types (infer has_egress : bool) (ts : list ptype) : list ptype :=
   match (if has_type TIngress ts then [TIngress] else []) ++ (if has_type TEgress ts then [TEgress] else []) with
-  | [] => [TIngress]
+  | [] => TIngress :: (if infer && has_egress then [TEgress] else [])
   | l => l
   end.
 
@@ -355,14 +358,16 @@ Definition policy_selector (ns : bytes) (sel : option ast) : option ast :=
   end.
 
 (* K8sNetworkPolicyToCalico followed by ConvertNetworkPolicyV3ToV1Value *)
-Definition conv_np (np : netpol) : cpolicy :=
+Definition conv_np_v (infer : bool) (np : netpol) : cpolicy :=
   {| cp_ns := np_ns np;
      cp_tier := T_DEFAULT;
      cp_order := Some 1000000;
      cp_sel := policy_selector (np_ns np) (pod_selector (Some (np_sel np)));
      cp_in := conv_rules true (np_ns np) (np_ingress np);
      cp_out := conv_rules false (np_ns np) (np_egress np);
-     cp_types := conv_types (np_types np) |}.
+     cp_types := conv_types infer (match np_egress np with [] => false | _ => true end) (np_types np) |}.
+(* the pinned tree *)
+Definition conv_np : netpol -> cpolicy := conv_np_v false.
 
 (* ------------------------------------------------------------------ namespaces and pods *)
 
